@@ -266,6 +266,12 @@ func New() *T {
 }
 
 /*line other.go:7:3*/ var Y = e.E{X: 1} //«g6»
+
+func Wide(t *T) {
+//line g.go:12:30000
+	t.N = 9 // a //line directive with a huge COLUMN for a line of this very file
+}
+
 var Last = T{N: 2}`
 
 var c10GAlts = []string{" @immutable", " @constructor New", " @testonly", " @ignore ALL", " @ignore CTOR01, IMM01", " plain"}
@@ -292,6 +298,7 @@ func ZZC10Lines() {
 	rg := AnalyzeSrc(prog, cfg, "zzmod/g", Facts{"zzmod/e": &re.Ann}, "impl", "imm", "ctor", "tonl", "pkgo")
 	for _, d := range append(re.Diags, rg.Diags...) {
 		nd.Assert(d.Code != "?", "every diagnostic carries a documented code")
+		nd.Assert(len(d.Msg) <= 2048, "the size of a message is bounded by its excerpt, not by a //line column")
 	}
 	nd.Reach("analysis of both packages completed")
 }
